@@ -10,6 +10,11 @@
 // ("Mixed<values>") or walks through all families starting there ("MixedRotate<values>"); every digest is compared with the
 // digest of the same family computed sequentially before the threads start, and all families are run once more sequentially
 // after the threads have ended.  Output:  ... ok | ... DIFF thread=<t> iter=<i> what=<family> | ... X <signal> | ... T timeout
+// Class "CopyStorm:<class>" (copy-construction from ONE shared const object, the sharer count of reference-counted classes):
+// phase A: T threads, released together, each make <iterations> LIVE copies of the shared object (kept alive) and probe the last
+// one; after joining, a class that counts its sharers (Modular<Log16> and the domains built over it) must count EXACTLY
+// before + T * iterations; phase B: the threads destroy their copies concurrently; the count must be back to `before`, and the
+// shared object must still give the reference digest.  what=count-live:<got>/<expected> | count-end:... | digest-<when>
 // `c18_threads --families` prints the family table (name <tab> call forms).
 #include "c16_probes.h"
 #include "qfield.h"
@@ -74,6 +79,20 @@ template <class D, void (*PROBE)(const D&, Sink&)> struct BoxNA : Any {      // 
     void probe(Sink& s) { PROBE(d, s); }
 };
 
+// ---- sharer counts (protected member numRefs of Modular<Log16>: read through a derived class without data members)
+struct PeekLog16 : Modular<Log16> { long refs() const { return numRefs ? (long)(int)(*numRefs) : -1; } };
+static long refs_of(const Modular<Log16>& F) { return static_cast<const PeekLog16&>(F).refs(); }
+typedef Poly1Dom<Modular<Log16>, Dense> PolyLog16;
+typedef Extension<Modular<Log16> > ExtLog16;
+static void pr_polylog16(const PolyLog16& pd, Sink& s) { s.part("poly"); probe_poly(pd, s.o, false); }
+static void pr_extlog16(const ExtLog16& f, Sink& s) { s.part("ext"); probe_extension(f, s.o); }
+static long sharers(const std::string& cls, Any* a) {
+    if (cls == "Modular<Log16>") return refs_of(static_cast<RINGBOX(Modular<Log16>)*>(a)->d);
+    if (cls == "Poly1Dom<Modular<Log16>,Dense>") return refs_of(static_cast<Box<PolyLog16, pr_polylog16>*>(a)->d.getdomain());
+    if (cls == "Extension<Modular<Log16>>") return refs_of(static_cast<Box<ExtLog16, pr_extlog16>*>(a)->d.base_field());
+    return -1;          // the class does not count sharers
+}
+
 static Any* make18(const std::string& cls, int P) {
     P &= 3;
     if (cls == "QField<Rational>") return new BoxNA<QField<Rational>, pr_qfield>(QField<Rational>());
@@ -91,6 +110,9 @@ static Any* make18(const std::string& cls, int P) {
         R::domains dm(n); for (int k = 0; k < n; ++k) dm[k] = Modular<double>((double)PS[P][k]);
         return new Box<R, pr_rns_const<R> >(R(dm));
     }
+    static const long L16P[] = {7, 101, 16381, 3};
+    if (cls == "Poly1Dom<Modular<Log16>,Dense>") { Modular<Log16> B((Modular<Log16>::Residu_t)L16P[P]); return new Box<PolyLog16, pr_polylog16>(PolyLog16(B, Indeter(P & 1 ? "Y" : "X"))); }
+    if (cls == "Extension<Modular<Log16>>") { Modular<Log16> B((Modular<Log16>::Residu_t)L16P[P]); return new Box<ExtLog16, pr_extlog16>(ExtLog16(B, (uint64_t)(2 + (P & 1)))); }
     // rarely instantiated storage types / specialisations that are not among the history classes of c16_probes.h
     static const long S8[] = {7, 11, 5, 3}, U8[] = {7, 13, 11, 3}, S16[] = {7, 101, 181, 3}, BIG[] = {7, 101, 46337, 3};
     if (cls == "Modular<int8_t>") return new RINGBOX(Modular<int8_t>)(Modular<int8_t>((int8_t)S8[P]));
@@ -133,7 +155,61 @@ static void run_mixed(const std::string& cls, int P, int T, int iters, bool rota
 
 static uint64_t digest(Any* a) { Sink s(0, false); a->probe(s); s.close(); return s.acc; }
 
+static uint64_t digest(Any* a);
+static void run_storm(const std::string& full, int P, int T, int K) {
+    const std::string cls = full.substr(10);
+    Any* shared = make18(cls, P);
+    if (!shared) { printf("%s %d %d X unknown-class\n", full.c_str(), P, T); return; }
+    uint64_t ref;
+    { Any* c = shared->copy(); ref = digest(c); delete c; }
+    const long before = sharers(cls, shared);
+    std::vector<std::vector<Any*> > live(T);
+    std::atomic<int> go(0), bad(0);
+    std::string what;
+    {   // phase A: live copies
+        std::vector<std::thread> th;
+        for (int t = 0; t < T; ++t) th.push_back(std::thread([&, t]() {
+            live[t].reserve(K);
+            while (!go.load()) { }
+            for (int i = 0; i < K; ++i) live[t].push_back(shared->copy());
+            if (K && digest(live[t].back()) != ref) bad = 1;
+        }));
+        go = 1;
+        for (size_t t = 0; t < th.size(); ++t) th[t].join();
+    }
+    if (bad) what = "digest-copy";
+    const long mid = sharers(cls, shared);
+    // (an object may hold several sharers of the tables: zero / one / nested domains -- per copy the same number as measured sequentially)
+    long per = 0;
+    if (before >= 0) { Any* c = shared->copy(); per = sharers(cls, shared) - mid; delete c; }
+    if (what.empty() && before >= 0 && mid != before + per * (long)T * K) {
+        char b[96]; snprintf(b, sizeof b, "count-live:%ld/%ld", mid, before + per * (long)T * K); what = b; }
+    if (what.empty() && digest(shared) != ref) what = "digest-shared-live";
+    if (!what.empty()) {
+        // the count is wrong: destroying the copies would free tables that are in use; report now
+        printf("%s %d %d DIFF thread=-1 iter=%d what=%s\n", full.c_str(), P, T, K, what.c_str()); return;
+    }
+    {   // phase B: concurrent destruction
+        go = 0;
+        std::vector<std::thread> th;
+        for (int t = 0; t < T; ++t) th.push_back(std::thread([&, t]() {
+            while (!go.load()) { }
+            for (size_t i = 0; i < live[t].size(); ++i) delete live[t][i];
+            live[t].clear();
+        }));
+        go = 1;
+        for (size_t t = 0; t < th.size(); ++t) th[t].join();
+    }
+    const long end = sharers(cls, shared);
+    if (before >= 0 && end != before) { char b[96]; snprintf(b, sizeof b, "count-end:%ld/%ld", end, before); what = b; }
+    else if (digest(shared) != ref) what = "digest-shared-end";
+    if (!what.empty()) printf("%s %d %d DIFF thread=-1 iter=%d what=%s\n", full.c_str(), P, T, K, what.c_str());
+    else printf("%s %d %d ok\n", full.c_str(), P, T);
+    return;                             // (the shared object is deliberately not destroyed: a miscounted class would double-free here)
+}
+
 static void run_case(const std::string& cls, int P, int T, int iters, bool nocopy) {
+    if (cls.compare(0, 10, "CopyStorm:") == 0) { run_storm(cls, P, T, iters); return; }
     if (cls == "Mixed<values>" || cls == "MixedRotate<values>") { run_mixed(cls, P, T, iters, cls[5] == 'R'); return; }
     Any* shared = make18(cls, P);
     if (!shared) { printf("%s %d %d X unknown-class\n", cls.c_str(), P, T); return; }
